@@ -206,11 +206,54 @@ def gen_case(r):
     return c
 
 
+def pinned_cases():
+    """the minimal inputs of the findings D25 and D30, run first on every seed"""
+    out = []
+    # D30: covered under the default profile, then updated under the ebuild profile
+    c = GT.Case()
+    t = GT.Tree()
+    t.add_dir('metadata')
+    t.add_file('metadata/timestamp.chk', b'now\n')
+    t.add_file('metadata/layout.conf', b'masters =\n')
+    t.add_file('Manifest', (ET.entry_line('DATA', 'metadata/layout.conf', b'masters =\n', ['SHA1']) + '\n'
+                            + ET.entry_line('DATA', 'metadata/timestamp.chk', b'now\n', ['SHA1']) + '\n').encode())
+    t.hardlinks = True
+    c.tree = t
+    c.meta.update(dirs=['', 'metadata'], files=['metadata/layout.conf', 'metadata/timestamp.chk'], manifests=['Manifest'], ignored=[], mutations=['pinned:D30'],
+                  order_seed=0, odd=[], cmd='update')
+    c.argv = ['update', '-H', 'SHA1', '-p', 'ebuild', '@']
+    c.opts = (['SHA1'], None, None, None, 'ebuild', None, None, True)
+    c.ops = [['update', '', [], []], ['touch_timestamp', 0, [2020, 1, 1, 0, 0, 0]], ['save', [], 0, [], [], []]]
+    c.hash_names = set(GT.GOOD_HASHES)
+    out.append(c)
+    # D25: a MANIFEST entry that leaves its directory through '..'
+    c = GT.Case()
+    t = GT.Tree()
+    t.add_dir('sub')
+    t.add_dir('sub2')
+    t.add_file('sub/f', b'x')
+    subm = (ET.entry_line('DATA', 'f', b'y', ['SHA1']) + '\n').encode()
+    t.add_file('sub/Manifest', subm)
+    sub2m = (ET.entry_line('MANIFEST', '../sub/Manifest', subm, ['SHA1']) + '\n').encode()
+    t.add_file('sub2/Manifest', sub2m)
+    t.add_file('Manifest', (ET.entry_line('MANIFEST', 'sub/Manifest', subm, ['SHA1']) + '\n' + ET.entry_line('MANIFEST', 'sub2/Manifest', sub2m, ['SHA1']) + '\n').encode())
+    t.hardlinks = True
+    c.tree = t
+    c.meta.update(dirs=['', 'sub', 'sub2'], files=['sub/f'], manifests=['Manifest', 'sub/Manifest', 'sub2/Manifest'], ignored=[], mutations=['pinned:D25'],
+                  order_seed=0, odd=[], cmd='update')
+    c.argv = ['update', '-H', 'SHA1', '-p', 'default', '@']
+    c.opts = (['SHA1'], None, None, None, 'default', None, None, True)
+    c.ops = [['update', '', [], []], ['touch_timestamp', 0, [2020, 1, 1, 0, 0, 0]], ['save', [], 0, [], [], []]]
+    c.hash_names = set(GT.GOOD_HASHES)
+    out.append(c)
+    return out
+
+
 def c18(ctx):
     quick = ctx.tier == 'quick'
     r = ctx.rng('c18')
     n = 2500 if quick else 14000
-    cases = [gen_case(r) for _ in range(n)]
+    cases = pinned_cases() + [gen_case(r) for _ in range(n - 2)]
     impl_res = []
     reqs = []
     with ET.Scratch() as sc:
